@@ -24,13 +24,13 @@ SPEC = {
 }
 
 TEXT = {
-    "technique": "complete enumeration of the padding arithmetic on the real routine + complete enumeration of all 1449 one-entry length tables for paranoid-mode termination + rapid over seeds / IAT modes / write sizes (up to 300000 bytes) with wire-write-size oracle and reference decoder",
+    "technique": "complete enumeration of the padding arithmetic on the real routine + complete enumeration of all 1449 one-entry length tables for paranoid-mode termination + rapid over seeds / IAT modes / write sizes (up to 300000 bytes) with wire-write-size oracle and reference decoder + free-running writer while the bridge's seed frame is processed (also under -race)",
     "engine": "enumeration + rapid + reference obfs4 peer (in-package harness in transports/obfs4)",
     "level_text": ("Exploration with two completely enumerated sub-spaces (padding arithmetic; paranoid-mode termination over every one-entry length table, each reached from a stored seed). Thorough runs the real padBurst for every (tail 0..1447, target "
                    "0..1448) pair with three burst prefixes (6.3 M calls; quick: all targets x 101 boundary tails) and checks the amount "
                    "appended, its bound, and that every padding frame opens in the reference decoder. End-to-end cases drive real endpoints "
                    "over generated seeds (a quarter pre-searched to contain 0, others with tiny tables or 1448), all IAT modes and write "
-                   "sizes, and judge the logged wire write sizes against the connection's live value table."),
+                   "sizes, and judge the logged wire write sizes against the connection's live value table. A free-running unit lets a writer goroutine write back to back while the withheld seed frame is delivered (distribution replaced under the writer's feet; also under the race detector): every burst must be explained by the client's initial table or the bridge's, nothing may panic, the final distribution must be the bridge's."),
     "level_note": ("The live value table is read by reflection from common/probdist (unexported fields values/minValue). IAT delays are "
                    "real sleeps, so mode 1/2 cases are capped at 6000 bytes. need == 21 is accepted with either one or two padding frames."),
 }
